@@ -1,0 +1,196 @@
+//go:build verif
+
+package rescache
+
+import (
+	"encoding/json"
+	"sort"
+
+	"github.com/resgateio/resgate/server/codec"
+)
+
+// VerifHookSet holds the callbacks installed by the verification harness.
+// Only built with tag verif. A nil VerifHooks means detached (free-running).
+type VerifHookSet struct {
+	// Kick is called before an actor's worker is woken up.
+	Kick func(actor interface{}, name string)
+	// Begin is called when a worker starts a run for the actor.
+	Begin func(actor interface{}, name string)
+	// Yield is called before each queued closure is executed.
+	Yield func(actor interface{}, name string)
+	// End is called when a worker's run for the actor ends.
+	End func(actor interface{}, name string)
+	// Go is called instead of a go statement. Returning true means the
+	// harness has taken over the execution of f.
+	Go func(f func()) bool
+	// Frame is called with each frame sent to a client connection.
+	Frame func(conn interface{}, cid string, data []byte)
+	// HTTPWait is called before a HTTP handler waits for its temporary connection.
+	HTTPWait func(conn interface{}, cid string)
+}
+
+// VerifHooks is set by the harness before any service is started.
+var VerifHooks *VerifHookSet
+
+func verifKick(e *EventSubscription) {
+	if h := VerifHooks; h != nil && h.Kick != nil {
+		h.Kick(e, e.ResourceName)
+	}
+}
+
+func verifBegin(e *EventSubscription) {
+	if h := VerifHooks; h != nil && h.Begin != nil {
+		h.Begin(e, e.ResourceName)
+	}
+}
+
+// verifYield is called with e.mu held. The mutex is released while parked, as
+// other goroutines must be able to enqueue on the EventSubscription.
+func verifYield(e *EventSubscription) {
+	if h := VerifHooks; h != nil && h.Yield != nil {
+		e.mu.Unlock()
+		h.Yield(e, e.ResourceName)
+		e.mu.Lock()
+	}
+}
+
+func verifEnd(e *EventSubscription) {
+	if h := VerifHooks; h != nil && h.End != nil {
+		h.End(e, e.ResourceName)
+	}
+}
+
+func verifGo(f func()) bool {
+	if h := VerifHooks; h != nil && h.Go != nil {
+		return h.Go(f)
+	}
+	return false
+}
+
+// VerifResource is a read-only snapshot of a ResourceSubscription.
+type VerifResource struct {
+	Query     string
+	State     int // 0 subscribed, 1 error, 2 requested, 3 collection, 4 model
+	Version   uint
+	Resetting bool
+	Links     []string
+	Subs      []string // "cid rname?query" of each subscriber, sorted
+	Value     string   // JSON of model / collection values, "" if none
+	Err       string
+}
+
+// VerifEntry is a read-only snapshot of an EventSubscription.
+type VerifEntry struct {
+	Name      string
+	Ref       interface{} // the *EventSubscription, for identity only
+	Count     int64
+	HasMQSub  bool
+	QueueLen  int
+	Locked    bool
+	LocksLen  int
+	LocksCap  int
+	Resources []VerifResource // base first (if any), then queries sorted
+	LinkKeys  []string
+}
+
+func verifResource(rs *ResourceSubscription) VerifResource {
+	r := VerifResource{
+		Query:     rs.query,
+		State:     int(rs.state),
+		Version:   rs.version,
+		Resetting: rs.resetting,
+		Links:     append([]string(nil), rs.links...),
+	}
+	sort.Strings(r.Links)
+	for s := range rs.subs {
+		r.Subs = append(r.Subs, s.CID()+" "+s.ResourceName()+"?"+s.ResourceQuery())
+	}
+	sort.Strings(r.Subs)
+	switch rs.state {
+	case stateModel:
+		if rs.model != nil {
+			b, _ := json.Marshal(rs.model.Values)
+			r.Value = string(b)
+		}
+	case stateCollection:
+		if rs.collection != nil {
+			b, _ := json.Marshal(rs.collection.Values)
+			r.Value = string(b)
+		}
+	}
+	if rs.err != nil {
+		r.Err = rs.err.Error()
+	}
+	return r
+}
+
+// VerifSnapshot returns a snapshot of all cache entries sorted by name. It
+// must only be called when no cache worker is executing a closure.
+func (c *Cache) VerifSnapshot() []VerifEntry {
+	c.mu.Lock()
+	defer c.mu.Unlock()
+	out := make([]VerifEntry, 0, len(c.eventSubs))
+	for name, e := range c.eventSubs {
+		e.mu.Lock()
+		ve := VerifEntry{
+			Name:     name,
+			Ref:      e,
+			Count:    e.count,
+			HasMQSub: e.mqSub != nil,
+			QueueLen: len(e.queue),
+			Locked:   e.locks != nil,
+			LocksLen: len(e.locks),
+			LocksCap: cap(e.locks),
+		}
+		seen := map[*ResourceSubscription]bool{}
+		if e.base != nil {
+			ve.Resources = append(ve.Resources, verifResource(e.base))
+			seen[e.base] = true
+		}
+		qs := make([]string, 0, len(e.queries))
+		for q := range e.queries {
+			qs = append(qs, q)
+		}
+		sort.Strings(qs)
+		for _, q := range qs {
+			if rs := e.queries[q]; !seen[rs] {
+				ve.Resources = append(ve.Resources, verifResource(rs))
+				seen[rs] = true
+			}
+		}
+		for q := range e.links {
+			ve.LinkKeys = append(ve.LinkKeys, q)
+		}
+		sort.Strings(ve.LinkKeys)
+		e.mu.Unlock()
+		out = append(out, ve)
+	}
+	sort.Slice(out, func(i, j int) bool { return out[i].Name < out[j].Name })
+	return out
+}
+
+// VerifUnsubQueue returns the eviction timer queue.
+func (c *Cache) VerifUnsubQueue() interface{} {
+	return c.unsubQueue
+}
+
+// VerifAddWorkers starts n additional cache workers, so that more
+// EventSubscriptions than CacheWorkers may be parked at the same time.
+func (c *Cache) VerifAddWorkers(n int) {
+	for i := 0; i < n; i++ {
+		go c.startWorker(c.inCh)
+	}
+}
+
+// VerifLCS exposes the collection diff routine.
+func VerifLCS(a, b []codec.Value) []*ResourceEvent {
+	return lcs(a, b)
+}
+
+// VerifEntryName returns the resource name of an *EventSubscription.
+func VerifEntryName(v interface{}) string {
+	if e, ok := v.(*EventSubscription); ok {
+		return e.ResourceName
+	}
+	return ""
+}
